@@ -16,7 +16,6 @@ from __future__ import annotations
 
 import json
 import math
-import multiprocessing as mp
 import os
 import random
 import threading
@@ -407,7 +406,8 @@ def run_marg(b: Builder, sc, seed):
     fkey = (sc["model"], seed)
     if fkey not in _FULL:
         _, chf = jax.jit(jax.vmap(lambda k: gf.marginal().random_weighted(k, *args)))(keys)
-        _FULL[fkey] = np.asarray(b.project(m, chf))
+        pf = b.present(m, chf)
+        _FULL[fkey] = np.asarray(b.project(m, chf, pf)) if all(pf) else None
     full = _FULL[fkey]
     kinds = ["union"] if 0 < sum(flags) else ["none"]
     if sum(flags) == ns:
@@ -437,11 +437,11 @@ def run_marg(b: Builder, sc, seed):
             continue
         w, vals = np.asarray(w), np.asarray(vals)
         retok = int(info["present"] == list(flags) and info["extra"] == 0)
-        consistent = int(bool(np.all(vals[:, selidx] == full[:, selidx]))) if retok else 0
+        consistent = int(bool(np.all(vals[:, selidx] == full[:, selidx]))) if (retok and full is not None) else 0
         w256 = _fx(w)
         lin10 = np.minimum(np.rint(np.exp(-w.astype(np.float64)) * 1024.0), 2 ** 20).astype(np.int64)
         cells = {}
-        for row, a, l in zip(map(tuple, full.tolist()), w256.tolist(), lin10.tolist()):
+        for row, a, l in zip(map(tuple, (full if full is not None else vals).tolist()), w256.tolist(), lin10.tolist()):
             c = cells.get(row)
             if c is None:
                 cells[row] = [1, a, a, l]
@@ -615,8 +615,10 @@ RUNNERS = {"smc": run_smc, "change": run_change, "marg": run_marg, "mh": run_mh}
 def _work(payload):
     cat, jobs = payload
     os.environ.setdefault("JAX_PLATFORMS", "cpu")
-    os.environ.setdefault("XLA_FLAGS", "--xla_cpu_multi_thread_eigen=false intra_op_parallelism_threads=1 "
-                          "--xla_backend_optimization_level=0 --xla_llvm_disable_expensive_passes=true")
+    fl = os.environ.get("XLA_FLAGS", "--xla_cpu_multi_thread_eigen=false intra_op_parallelism_threads=1")
+    if "xla_backend_optimization_level" not in fl:      # tiny programs: compile time dominates
+        fl += " --xla_backend_optimization_level=0 --xla_llvm_disable_expensive_passes=true"
+    os.environ["XLA_FLAGS"] = fl
     os.environ.setdefault("OMP_NUM_THREADS", "1")
     b = Builder(cat)
     out = []
@@ -755,7 +757,7 @@ def run(prop_id, tier, seed, replay=None):
         # (B) catalogue and scenarios
         cfgB = os.path.join(wd, "Gen.cfg")
         _write_cfg(cfgB, kinds, True, ["EmitCase"])
-        resB = vlib.run_tlc("Inference", cfgB, wd, tag="roleB", workers=4, timeout=600, jvm=["-Xmx3g"])
+        resB = vlib.run_tlc("Inference", cfgB, wd, tag="roleB", workers=4, timeout=600, jvm=["-Xmx3g", "-Xss64m"])
         rep.add_tlc(resB)
         cats = list(resB.payloads("CATALOG"))
         if len(cats) != 1:
@@ -774,7 +776,7 @@ def run(prop_id, tier, seed, replay=None):
         def roleA():
             try:
                 box["res"] = vlib.run_tlc("Inference", cfgA, wd, tag="roleA", workers=6, timeout=1200,
-                                          jvm=["-Xmx4g"])
+                                          jvm=["-Xmx4g", "-Xss64m"])
             except Exception as e:  # re-raised in the main thread
                 box["err"] = e
         thread = threading.Thread(target=roleA)
@@ -786,8 +788,7 @@ def run(prop_id, tier, seed, replay=None):
         nproc = max(2, min(vlib.NCPU - 4, (len(jobs) + 5) // 6))
         order = sorted(jobs, key=lambda j: -_cost(j[1]))
         buckets = [order[k::nproc * 2] for k in range(nproc * 2)]
-        ctx = mp.get_context("spawn")
-        with ctx.Pool(nproc) as pool:
+        with vlib.pinned_pool(nproc) as pool:
             results = pool.map(_work, [(cat, bk) for bk in buckets if bk], chunksize=1)
         events = [e for r in results for e in r]
         events.sort(key=lambda e: e["sc"])
@@ -813,7 +814,7 @@ def run(prop_id, tier, seed, replay=None):
             f.write(f"CONSTANTS Emit = FALSE\n Kinds = {{}}\n TOL = {TOL}\n HB = {HB}\n"
                     "SPECIFICATION TSpec\nCHECK_DEADLOCK FALSE\n")
         resT = vlib.run_tlc("InferenceTrace", cfgT, wd, tag="trace", workers=1, timeout=2400,
-                            env={"TRACE_FILE": trace}, jvm=["-Xmx4g"])
+                            env={"TRACE_FILE": trace}, jvm=["-Xmx4g", "-Xss64m"])
         rep.add_tlc(resT)
         done = list(resT.payloads("DONE"))
         if len(done) != 1 or done[0]["events"] != len(judged) or done[0]["checked"] != len(judged):
